@@ -295,8 +295,15 @@ func VerifH_C03_wireARP() {
 	got, _ := wireConf.bpfFilter(&wireConf.scanRange)
 	exp, _ := arp.BPFFilter(&wireConf.scanRange)
 	verifAssert(got == exp && got == "arp src net 192.168.0.0/24", "the arp scan must install the ARP source-net filter of its target")
-	_, uniq := wireConf.logger.(*log.UniqueLogger)
+	ul, uniq := wireConf.logger.(*log.UniqueLogger)
 	verifAssert(uniq == live, "live mode must de-duplicate its output (and only live mode)")
+	// the records must be written by the logger built from the command's own options (--json, output
+	// stream), with or without the de-duplicating wrapper around it
+	if uniq && ul != nil {
+		verifAssert(log.VerifInner(ul) == wireLogger, "the live logger does not write through the logger built from the command's options (--json would be lost)")
+	} else if !live {
+		verifAssert(wireConf.logger == wireLogger, "the logger is not the one built from the command's options")
+	}
 	_, ok := wireConf.scanMethod.(*arp.ScanMethod)
 	verifAssert(ok, "not the ARP scan method")
 	verifCover("done")
